@@ -352,5 +352,35 @@ func main() {
 			}
 			e.Strs("mergeOrderFacts", facts, "seq.MergeQPRs orders the merged ids with sort.Sort over IDSources (ascending) or its sort.Reverse (regular = descending); IDSources.Less is seq.Less on (MID, RID)")
 		}
-	}, "seq/qpr.go", "seq/seq.go", "frac/inverser.go", "frac/processor/search.go", "frac/processor/eval_tree.go", "frac/processor/search_params.go", "node/node_not.go", "node/builder.go", "node/less_fn.go", "frac/active_index.go")
+		// ---- proxy: the request sent to the stores
+		if fp, err := r.Load("proxy/search/search_request.go"); err != nil {
+			e.Missing("apiRequestFields", err)
+		} else if fd := fp.Func("SearchRequest", "GetAPISearchRequest"); fd == nil {
+			e.Missing("apiRequestFields", "GetAPISearchRequest not found")
+		} else {
+			var facts []string
+			ast.Inspect(fd.Body, func(n ast.Node) bool {
+				if kv, ok := n.(*ast.KeyValueExpr); ok {
+					k := fp.Render(kv.Key)
+					if k == "Size" || k == "Offset" || k == "From" || k == "To" || k == "WithTotal" || k == "Order" {
+						facts = append(facts, k+": "+fp.Render(kv.Value))
+					}
+				}
+				return true
+			})
+			e.Strs("apiRequestFields", facts, "SearchRequest.GetAPISearchRequest: paging, window, total and order fields of the store request")
+		}
+		if fg, err := r.Load("storeapi/grpc_search.go"); err != nil {
+			e.Missing("storeLimitExpr", err)
+		} else {
+			var facts []string
+			ast.Inspect(fg.AST, func(n ast.Node) bool {
+				if a, ok := n.(*ast.AssignStmt); ok && len(a.Lhs) == 1 && fg.Render(a.Lhs[0]) == "limit" {
+					facts = append(facts, "limit := "+fg.Render(a.Rhs[0]))
+				}
+				return true
+			})
+			e.Strs("storeLimitExpr", facts, "storeapi search: the limit a store searches with")
+		}
+	}, "proxy/search/search_request.go", "storeapi/grpc_search.go", "seq/qpr.go", "seq/seq.go", "frac/inverser.go", "frac/processor/search.go", "frac/processor/eval_tree.go", "frac/processor/search_params.go", "node/node_not.go", "node/builder.go", "node/less_fn.go", "frac/active_index.go")
 }
